@@ -102,7 +102,7 @@ PlanFails(e) ==
       tgt == Target(cs, dev)
       us == e.bname \in {"US915", "AU915"}
       res == Apply(us, n, 16, dev, e.payloads)
-  IN  IF e.err # "" THEN <<"C14.reach">> ELSE
+  IN  IF e.err # "" THEN <<"C14.reach", "C15.index">> ELSE     \* the planner / applier did not return (panic): also "indices ... never as panics"
       Tag(res = tgt, "C14.reach")
       \o Tag(\A k \in 1..Len(e.encs) : e.encs[k] = 0, "C14.encodable")
       \o Tag(Len(e.payloads) <= Blocks(Max2(n, 1 + SetMax(dev \cup {0})), 16) + 1, "C14.count")   \* blocks of the plan and of stale device channels
